@@ -78,9 +78,9 @@ Open Scope Z_scope.
    application chooses the placements it supplies in TaskDescription.slots.  Model: RP.AppSlots.Model;
    occupations in 1/64 of a core / GPU (BUSY = 64).
 
-   wf_nodes ns0     : the node list as Pilot.nodelist builds it from the agent's resource details --
-                      node ids are the list positions, lfs / mem are numbers >= 0, every core / GPU
-                      is DOWN or occupied between FREE and BUSY;
+   wf_nodes ns0     : node ids (Node.index) pairwise distinct -- not necessarily the list positions --,
+                      lfs / mem a number >= 0 or not reported (None), every core / GPU DOWN or
+                      occupied between FREE and BUSY; node names arbitrary (possibly all equal);
    op_ok            : the calls are find_slots / release_slots / verify / Node.find_slot with
                       non-negative sizes and occupations (find_slots: core occupation > 0);
    all_disciplined  : release_slots is given slots the application holds (got from find_slots and
